@@ -300,6 +300,10 @@ def guard_eq_zero(body, bb):
 # ---------------------------------------------------------------------------
 # role helpers on top of the model
 
+COPY_FNS = ("std::slice::<impl [T]>::to_vec", "std::borrow::ToOwned::to_owned", "std::clone::Clone::clone",
+            "std::vec::Vec::<T>::from", "std::convert::From::from", "std::convert::Into::into")
+
+
 def setup_group(ctx):
     """the set-up function and the private, synchronous helpers it calls (a set-up split into `select the structure and
     counts` / `compute the capacity` / `allocate the channels` is still one set-up)"""
@@ -335,8 +339,12 @@ def _counts_allocs_in(ctx, setup):
                  "std::convert::Into::into"):
             e = expr_operand(setup, t["args"][0])
             getters = [c for c in walk_expr(e) if c.kind == "call" and c[1].startswith("edge_counts::EdgeCounts::")]
+            es_ = strip_refs(e)
             if getters:
                 out[(setup.id, bb)] = getters[0][1]
+            elif es_.kind == "field" and strip_refs(es_[1]) == E(("arg", 1)) and setup.arg_count >= 1 and "EdgeCounts" in setup.locals[1]["s"] and \
+                    t["dest"]["ty"].startswith("std::vec::Vec<usize"):
+                out[(setup.id, bb)] = "field-copy"
             elif t["dest"]["ty"].startswith("std::vec::Vec<usize") and "[usize]" in (t["args"][0].get("pl", {}).get("ty") or ""):
                 # copy of a slice selected earlier (e.g. by a match on the order): every source of the slice is an EdgeCounts getter's result
                 fl = m.flow
@@ -880,7 +888,8 @@ def S1(ctx, rule="S1"):
                 for o in ops:
                     if o in dag_ops or o["k"] == "const":
                         continue
-                    gs = [c for c in walk_expr(expr_operand(body_, o)) if c.kind == "call" and c[1].startswith("edge_counts::EdgeCounts::")]
+                    gs = [c for c in walk_expr(expr_operand(body_, o)) if c.kind == "call" and c[1].startswith("edge_counts::EdgeCounts::") and
+                          not any("StreamOrder" in i_["s"] for i_ in (fb.fns.get(c[1]) or {}).get("inputs", []))]     # (an order-keyed selector is not a getter)
                     if gs and dag_ops:
                         out_.append((bb, dag_ops[0], gs[0][1]))
         return out_
@@ -929,6 +938,12 @@ def S1(ctx, rule="S1"):
                 if kind_ == "call" and (callee_path(x_) or "").startswith("edge_counts::EdgeCounts::"):
                     by_arm[o_] = ("getter", callee_path(x_))
                     kind = "counts"
+                elif kind_ == "call" and callee_path(x_) in COPY_FNS and x_["args"] and \
+                        strip_refs(expr_operand(hb, x_["args"][0])).kind == "field" and \
+                        "EdgeCounts" in hb.locals[1]["s"] and strip_refs(strip_refs(expr_operand(hb, x_["args"][0]))[1]) == E(("arg", 1)):
+                    # `self.incoming.clone()` inside a method of EdgeCounts: the field itself, freshly copied
+                    by_arm[o_] = ("field", strip_refs(expr_operand(hb, x_["args"][0]))[2])
+                    kind = "counts"
                 elif kind_ == "stmt" and x_["rv"]["k"] in ("use", "ref", "copy_for_deref"):
                     ex_ = strip_refs(expr_rvalue(hb, x_["rv"], 0, (dbb, si_)))
                     if ex_.kind == "arg":
@@ -948,24 +963,51 @@ def S1(ctx, rule="S1"):
             csites = [(cb_, cbb_, ct_) for (cb_, cbb_, ct_) in fl.call_sites().get(hb.id, []) if cb_.id == setup.id]
             if len(csites) != 1:
                 continue
-            if kind == "counts" and all(v[0] == "getter" for v in by_arm.values()):
+            if kind == "counts" and all(v[0] in ("getter", "field") for v in by_arm.values()):
                 sel_counts = (hb, by_arm, csites[0])
             elif kind == "struct" and all(v[0] == "param" for v in by_arm.values()):
                 sel_struct = (hb, by_arm, csites[0])
+        if sel_counts and not sel_struct:
+            # the structure may be selected by a `match` on the order in the set-up function itself
+            for l_ in range(1, len(setup.locals)):
+                if "daggy::Dag<()" not in setup.locals[l_]["s"]:
+                    continue
+                ds_ = list(get_defs(setup).of(l_))
+                arms_ = {}
+                for kind_, dbb, si_, x_ in ds_:
+                    o_ = arm_order(ctx, setup, dbb)
+                    if o_ is None or kind_ != "stmt" or x_["rv"]["k"] not in ("use", "ref", "copy_for_deref"):
+                        arms_ = None
+                        break
+                    ex_ = strip_refs(expr_rvalue(setup, x_["rv"], 0, (dbb, si_)))
+                    if ex_.kind != "arg":
+                        arms_ = None
+                        break
+                    arms_[o_] = ("param", ex_[1])
+                if arms_ and set(arms_) == {"Forward", "Reverse"}:
+                    sel_struct = (setup, arms_, None)
+                    break
         if sel_struct and sel_counts:
             # both selectors are keyed by the same order value
             def order_arg(sel):
-                hb_, _, (cb_, cbb_, ct_) = sel
+                hb_, _, site_ = sel
                 oi_ = [i for i in range(1, hb_.arg_count + 1) if "StreamOrder" in hb_.locals[i]["s"]]
+                if site_ is None:
+                    # selected in the set-up function itself: the order parameter of the set-up function
+                    return fl.sources_local(hb_, oi_[0], ()) if oi_ else frozenset()
+                cb_, cbb_, ct_ = site_
                 return fl.sources_operand(cb_, ct_["args"][oi_[0] - 1]) if oi_ else frozenset()
             same_key = bool(order_arg(sel_struct)) and order_arg(sel_struct) == order_arg(sel_counts)
-            ctx.check(same_key, rule, "pair-key", m.where(setup, sel_struct[2][1]),
+            ctx.check(same_key, rule, "pair-key", m.where(setup, sel_struct[2][1]) if sel_struct[2] else m.where(setup),
                       "the structure selector and the counts selector are given the same StreamOrder value",
                       "the structure and the counts are selected by different order values")
             for order in ("Forward", "Reverse"):
                 pidx = sel_struct[1][order][1]
-                cb_, cbb_, ct_ = sel_struct[2]
-                ssrcs = fl.sources_operand(cb_, ct_["args"][pidx - 1]) if pidx - 1 < len(ct_["args"]) else frozenset()
+                if sel_struct[2] is None:
+                    ssrcs = fl.sources_local(setup, pidx, ())
+                else:
+                    cb_, cbb_, ct_ = sel_struct[2]
+                    ssrcs = fl.sources_operand(cb_, ct_["args"][pidx - 1]) if pidx - 1 < len(ct_["args"]) else frozenset()
                 sfields = set()
                 for s_ in ssrcs:
                     if s_.kind == "param" and s_[1] == setup.id:
@@ -973,7 +1015,8 @@ def S1(ctx, rule="S1"):
                     elif s_.kind == "param" and len(s_[3]) >= 1 and isinstance(s_[3][0], int):
                         sfields.add(s_[3][0])
                 getter = sel_counts[1][order][1]
-                deg = getter_degree.get(getter, "?")
+                deg = getter_degree.get(getter, "?") if sel_counts[1][order][0] == "getter" else field_degree.get(getter, "?")
+                getter = str(getter) if sel_counts[1][order][0] == "getter" else "EdgeCounts.%s" % (ec_fields[getter] if getter < len(ec_fields) else getter)
                 want = "in" if sfields == {fwd_f} else ("out" if sfields == {rev_f} else None)
                 sname = "forward structure" if sfields == {fwd_f} else ("reversed structure" if sfields == {rev_f} else "fields %s" % sorted(sfields))
                 pair_obs += 1
@@ -1078,6 +1121,7 @@ def structure_roles(ctx):
     fields = m.fngraph_fields()
     build = None
     agg = None
+    outer_build = None
     for b in fb.prod_bodies():
         if b.kind != "fn" or "Default" in b.id or "Clone" in b.id:
             continue
@@ -1085,6 +1129,18 @@ def structure_roles(ctx):
             if s["k"] == "assign" and s["rv"]["k"] == "agg" and s["rv"].get("def") == "fn_graph::FnGraph" and \
                     "FnGraphBuilder" in b.id:
                 build, agg = b, s
+    if build is None:
+        # the FnGraph value may be assembled by a crate-private constructor that build() calls (`FnGraph::from_parts(..)`)
+        bb_ids = [x.id for x in fb.prod_bodies() if x.kind == "fn" and "FnGraphBuilder" in x.id and x.id.endswith("::build")]
+        for b in fb.prod_bodies():
+            if b.kind != "fn" or "Default" in b.id or "Clone" in b.id or (fb.fns.get(b.id) or {}).get("public"):
+                continue
+            if not any(b.id in m.reach(x) for x in bb_ids):
+                continue
+            for bb, si, s in b.stmts():
+                if s["k"] == "assign" and s["rv"]["k"] == "agg" and s["rv"].get("def") == "fn_graph::FnGraph":
+                    build, agg = b, s
+                    outer_build = fb.bodies.get(bb_ids[0]) if bb_ids else None
     if build is None:
         m._structure_roles = False
         return None
@@ -1105,6 +1161,28 @@ def structure_roles(ctx):
                     return None
                 ea, ec = endpoint(a), endpoint(c)
                 if ea is None or ec is None:
+                    # `structures.add_edge(from, to, w)` method of a private holder: the endpoints are its parameters, what they
+                    # are is decided at its call sites (`structures.add_edge(edge.source(), edge.target(), edge.weight)`)
+                    H_ = fb.bodies.get(b.root)
+                    if H_ is None or H_.kind != "fn" or (fb.fns.get(H_.id) or {}).get("public"):
+                        continue
+                    sa_ = fl.sources_operand(b, t["args"][1], (), "prov@" + H_.id)
+                    sc_ = fl.sources_operand(b, t["args"][2], (), "prov@" + H_.id)
+                    if len(sa_) != 1 or len(sc_) != 1:
+                        continue
+                    pa_, pc_ = list(sa_)[0], list(sc_)[0]
+                    if not (pa_.kind == "param" and pc_.kind == "param" and pa_[1] == H_.id and pc_[1] == H_.id and pa_[2] != pc_[2]):
+                        continue
+                    os2 = set()
+                    for (cb_, cbb_, ct_) in fl.call_sites().get(H_.id, []):
+                        if fb.is_test_body(cb_) or max(pa_[2], pc_[2]) - 1 >= len(ct_["args"]):
+                            continue
+                        ea2 = endpoint(strip_refs(expr_operand(cb_, ct_["args"][pa_[2] - 1])))
+                        ec2 = endpoint(strip_refs(expr_operand(cb_, ct_["args"][pc_[2] - 1])))
+                        os2.add("fwd" if (ea2, ec2) == ("source", "target") else ("rev" if (ea2, ec2) == ("target", "source") else "?"))
+                    for s in fl.sources_operand(b, t["args"][0]):
+                        for o2 in os2:
+                            orient.setdefault(s, set()).add(o2)
                     continue
                 o = "fwd" if (ea, ec) == ("source", "target") else ("rev" if (ea, ec) == ("target", "source") else "?")
                 for s in fl.sources_operand(b, t["args"][0]):
@@ -1142,7 +1220,7 @@ def structure_roles(ctx):
                 ea, ec = ends(pa[3]), ends(pc[3])
                 o = "fwd" if (ea, ec) == ("source", "target") else ("rev" if (ea, ec) == ("target", "source") else "?")
                 helper_orient.setdefault((cb.id, cbb), set()).add(o)
-    roles = {"fwd": None, "rev": None, "graph": None, "counts": None, "ranks": None, "build": build, "orient": orient}
+    roles = {"fwd": None, "rev": None, "graph": None, "counts": None, "ranks": None, "build": outer_build or build, "ctor": build, "orient": orient}
     for fi, op in enumerate(agg["rv"]["ops"]):
         srcs = fl.sources_operand(build, op)
         os_ = set()
